@@ -236,7 +236,7 @@ PROPS = {
     "C05": {
         "theorems": ["C05_complete_core", "C05_unsat_means_no_valid_schedule", "task_complete", "reqs_complete",
                      "core_raw_complete", "noOverlapPairs_complete", "interruptedOne_complete", "periodicOne_complete",
-                     "periodicInterruptedOne_complete"],
+                     "periodicInterruptedOne_complete", "indicator_complete", "eval_congr_term", "eval_congr_fml"],
         "profiles": [("all", 0.3), ("frag", 0.2), ("resc", 0.1), ("fol", 0.15), ("focus_resc", 0.15), ("focus_taskc", 0.1)],
         "relevant": lambda o: True,
         "spec": None,
